@@ -15,6 +15,8 @@
 (*           lives as long as the cache entry it was put on)               *)
 (*   ncs     provider ids that saw a NodeClaim delivery since the last     *)
 (*           delivery of their Node (only used to classify a failure)      *)
+(*   shape / reshaped  the shape each pod name was last created with and   *)
+(*           the names re-created with a different shape (classification)  *)
 (* At every Mem with pend = {} the cache view must equal F(api, marks),    *)
 (* field by field; failures are accumulated per field and per state node   *)
 (* with a signature that names the witness class.                          *)
@@ -34,11 +36,14 @@ Flat(ss) == IF ss = <<>> THEN <<>> ELSE Head(ss) \o Flat(Tail(ss))
 V(guard, sig) == [line |-> l, guard |-> guard, sig |-> sig]
 Chk(ok, guard, sig) == IF ok THEN <<>> ELSE <<V(guard, sig)>>
 
-St0(cfg) == [keys |-> Range(cfg.pids) \cup Range(cfg.nodes), pools |-> Range(cfg.pools), pend |-> {}, marks |-> {}, ncs |-> {}]
-TraceInit == l = 1 /\ st = [keys |-> {}, pools |-> {}, pend |-> {}, marks |-> {}, ncs |-> {}]
+St0(cfg) == [keys |-> Range(cfg.pids) \cup Range(cfg.nodes), pools |-> Range(cfg.pools), pend |-> {}, marks |-> {}, ncs |-> {},
+             shapes |-> cfg.shapes, shape |-> [p \in Range(cfg.pods) |-> "none"], reshaped |-> {}]
+TraceInit == l = 1 /\ st = [keys |-> {}, pools |-> {}, pend |-> {}, marks |-> {}, ncs |-> {}, shapes |-> <<>>, shape |-> <<>>,
+                            reshaped |-> {}]
              /\ viol = <<>> /\ ntr = 0 /\ nq = 0 /\ done = FALSE
 
 \* ---------------------------------------------------------------- Step / Deliver: ghost bookkeeping
+ShapeOf(z) == IF z = "alt" THEN "alt" ELSE "std"
 TStep ==
     /\ Ev.e = "Step"
     /\ st' = [st EXCEPT
@@ -48,7 +53,9 @@ TStep ==
          !.marks = IF Ev.a = "Restart" THEN {}
                    ELSE IF Ev.a = "Mark" /\ Ev.hit THEN @ \cup {Ev.x}
                    ELSE IF Ev.a = "Unmark" THEN @ \ {Ev.x} ELSE @,
-         !.ncs = IF Ev.a = "Restart" THEN {} ELSE @]
+         !.ncs = IF Ev.a = "Restart" THEN {} ELSE @,
+         !.shape = IF Ev.a = "CreatePod" THEN [@ EXCEPT ![Ev.x] = ShapeOf(Ev.z)] ELSE @,
+         !.reshaped = IF Ev.a = "CreatePod" /\ st.shape[Ev.x] \notin {"none", ShapeOf(Ev.z)} THEN @ \cup {Ev.x} ELSE @]
     /\ UNCHANGED <<viol, nq>>
 
 TDeliver ==
@@ -76,23 +83,28 @@ FS(k) == FStateNode(Api, st.marks, k)
 \* ---- witness classes (signatures).  A state node's usage can only be wrong in the listed known ways if ...
 \* pods that exist unbound (a predecessor of the same name may still be tracked on this node)
 Unbound == {p \in DOMAIN Api.pods : Api.pods[p].ex /\ Api.pods[p].node = "" /\ ~Api.pods[p].term}
-\* the field value the node would show if, besides its real pods, the set S of phantom pods were counted
-FieldWith(k, fld, T) ==
-    CASE fld = "req" -> ReqOf(Api.pods, T)
-      [] fld = "dreq" -> ReqOf(Api.pods, {p \in T : Api.pods[p].ds})
-      [] fld = "ports" -> PortsOf(Api.pods, T)
-      [] fld = "vols" -> VolsOf(Api.pods, T)
-      [] fld = "cost" -> CostOf(Api.pods, T)
+\* a tracked predecessor may have had either shape of its name: S phantom pods, those in A with the alternative shape
+PhPods(S, A) == [p \in DOMAIN Api.pods |-> IF p \in A THEN st.shapes[p].alt ELSE IF p \in S THEN st.shapes[p].std ELSE Api.pods[p]]
+\* the field value a node shows when exactly the pods T (described by pf) are counted on it
+FieldWith(pf, fld, T) ==
+    CASE fld = "req" -> ReqOf(pf, T)
+      [] fld = "dreq" -> ReqOf(pf, {p \in T : pf[p].ds})
+      [] fld = "ports" -> PortsOf(pf, T)
+      [] fld = "vols" -> VolsOf(pf, T)
+      [] fld = "cost" -> CostOf(pf, T)
 UsageSig(k, fld) ==
     LET f == FS(k)  m == M.sn[k]  P == FPodsOn(Api, k)
     IN IF ~f.node.ex THEN "usage-kept-after-node-gone"
-       ELSE IF \E S \in SUBSET Unbound : S # {} /\ m[fld] = FieldWith(k, fld, P \cup S)
+       ELSE IF \E S \in SUBSET Unbound : S # {} /\ \E A \in SUBSET S : m[fld] = FieldWith(PhPods(S, A), fld, P \cup S)
             THEN "stale-binding-of-recreated-unbound-pod"
        ELSE IF fld = "cost" /\ k \in st.ncs /\ \E T \in SUBSET P : m.cost = CostOf(Api.pods, T)
             THEN "reset-by-nodeclaim-update"
-       ELSE IF fld = "cost" /\ k \in st.ncs /\ \E T \in SUBSET (P \cup Unbound) : m.cost = CostOf(Api.pods, T)
+       ELSE IF fld = "cost" /\ k \in st.ncs
+               /\ \E S \in SUBSET Unbound : \E A \in SUBSET S : \E T \in SUBSET (P \cup S) : m.cost = CostOf(PhPods(S, A), T)
             THEN "reset-by-nodeclaim-update+stale-binding"
-       ELSE IF fld \in {"req", "dreq", "cost"} THEN (IF m[fld] = FieldWith(k, fld, {}) THEN "other:empty" ELSE "other")
+       ELSE IF fld = "vols" /\ st.reshaped # {} /\ f.vols \subseteq m.vols
+            THEN "volumes-kept-after-same-name-pod-replaced"
+       ELSE IF fld \in {"req", "dreq", "cost"} THEN (IF m[fld] = FieldWith(Api.pods, fld, {}) THEN "other:empty" ELSE "other")
        ELSE "other"
 UsageChk(fld, guard) ==
     Flat([i \in 1..Len(SetToSeq(Keys)) |->
